@@ -7,6 +7,7 @@ mod codec;
 mod e2e;
 mod e2epub;
 mod e2ereq;
+mod e2etls;
 mod fanout;
 mod mock;
 mod pubsub;
@@ -59,6 +60,7 @@ fn main() {
         "e2epub" => e2epub::run(&cfg),
         "e2ereq" => e2ereq::run(&cfg),
         "registry" => registry::run(&cfg),
+        "e2etls" => e2etls::run(&cfg),
         other => { eprintln!("unknown suite {other}"); std::process::exit(2); }
     }
 }
